@@ -16,7 +16,7 @@ from vf import harness
 PROPERTY = "C17"
 LEVEL = "model_checking"
 ASSUMPTIONS = ["a forked child of a process that has imported tartiflette but registered nothing is a 'fresh process'"]
-BUDGET_S = {"quick": 150, "thorough": 3000}
+BUDGET_S = {"quick": 600, "thorough": 3000}
 
 SDL = """
 directive @tag on FIELD_DEFINITION
